@@ -35,6 +35,15 @@ def run_queries(ctx, env, compiled_with_source):
         compare_query(ctx, env, c, m, source=src)
 
 
+SAFE_CHARS = set("$@#_~^%+|&")
+
+
+def valid_spell(sp):
+    """the spellings for which `JP.Lex.ValidSpell` holds: non-empty, pairwise distinct, made of the symbol characters
+    `$ @ # _ ~ ^ % + | &`, none starting with `&&` or `||`"""
+    return (all(s and set(s) <= SAFE_CHARS and not s.startswith("&&") and not s.startswith("||") for s in sp) and len(set(sp)) == len(sp))
+
+
 def spell_of(env):
     return [getattr(env, a) or "" for a in SPELL_ATTRS]
 
@@ -173,6 +182,6 @@ def compare_query(ctx, env, compiled, m, source=None):
         ctx.mismatch("lex.pstr", inp, text, m["text"])
         return
     ctx.count("lex:printed")
-    if spell_of(env) == DEFAULT_SPELL and m["relex"] != {"ok": m["ptoks"]}:
+    if valid_spell(spell_of(env)) and m["relex"] != {"ok": m["ptoks"]}:
         # inside the model: lexing the printed text does not give the printed tokens (obligation lex_pstr)
         ctx.mismatch("lex.pstr.relex (model-internal: theorem lex_pstr)", inp, m["relex"], m["ptoks"])
